@@ -592,8 +592,14 @@ func vc05RunHistories(tt *testing.T, st *vstat.Stats, env *vc05Env) {
 			} else {
 				kind := rapid.SampledFrom([]vdns.Kind{vdns.KA, vdns.KA, vdns.KAMixed, vdns.KCNAME, vdns.KNodataSOA, vdns.KNX, vdns.KServfail, vdns.KRefused}).Draw(t, "kind")
 				zone := rapid.SampledFrom([]string{"s.test.", "s.test.", "u.test."}).Draw(t, "zone")
+				name := vdns.Name(kind, 6, zone) // TTL 300: nothing expires within a case
+				if rapid.IntRange(0, 11).Draw(t, "minimalName") == 0 {
+					// the root and one-letter names (TTL 5, still far longer than a case)
+					name = rapid.SampledFrom(vdns.MinimalNames).Draw(t, "minimal")
+				}
+
 				a = asked{
-					name: vdns.Name(kind, 6, zone), // TTL 300: nothing expires within a case
+					name: name,
 					qt:   rapid.SampledFrom([]uint16{dns.TypeA, dns.TypeA, dns.TypeAAAA, dns.TypeTXT}).Draw(t, "qt"),
 					do:   rapid.IntRange(0, 4).Draw(t, "do") == 0,
 				}
